@@ -354,9 +354,12 @@ fn scenarios_unordered(prop: &str, tier: &str) -> Vec<Scenario> {
         // the step is a public field: constructed and set up with a small step, raised 20-fold before solve
         // (whatever a planner derives from the step - a cached number of check points - is derived from
         // the value the field has NOW)
-        if matches!(prop, "C03" | "C05") {
+        if matches!(prop, "C03" | "C05") && (thorough || matches!(kit, "RealVector" | "SO2" | "Compound")) {
             for pk in Pk::ALL {
                 for w in [b.world_named("subset0111", vec![b.obstacles[0].clone(), b.obstacles[1].clone(), b.obstacles[2].clone()]), b.world_free()] {
+                    if !thorough && w.name == "free" {
+                        continue;
+                    }
                     let mut sc = b.scenario(w.clone(), b.params(pk, if prop == "C03" { 1e6 } else { 1.6 }, 2.5, 0.0), &format!("{prop}/{kit}/{}/{}/step-raised-after-setup", w.name, pk.name()));
                     sc.step_raise = if prop == "C03" { 2e7 } else { 20.0 }; // C03: constructed with a step of 0.05, i.e. one or two check points per motion
                     out.push(sc);
